@@ -150,7 +150,7 @@ func (in *Interp) gMain(g *G) {
 		if in.killed {
 			return
 		}
-		next := in.pick(nil)
+		next := in.pickNext(g)
 		if next == nil {
 			in.deadlock = "all goroutines blocked; main waits for: " + in.gs[0].what
 			in.wakeMain()
@@ -189,7 +189,7 @@ func (in *Interp) block(ready func() bool, what string) {
 		g := in.cur
 		g.waiting = ready
 		g.what = what
-		next := in.pick(g)
+		next := in.pickNext(g)
 		if next == nil {
 			g.waiting = nil
 			if g.id == 0 {
@@ -217,14 +217,17 @@ func (in *Interp) yieldAll() {
 	panic(pathEnd{"UNWIND: yieldAll did not quiesce"})
 }
 
-// schedPoint: in schedule-exploration mode the scheduler may switch here.
+// schedPoint: in schedule-exploration mode the scheduler may preempt the running goroutine here.
+// Preemption bounding (CHESS): at most in.preemptBound switches away from a goroutine that could
+// have continued; switches at blocking points are free.
 func (in *Interp) schedPoint(what string) {
-	if !in.schedExp {
+	if !in.schedExp || in.preempts >= in.preemptBound {
 		return
 	}
 	var cands []*G
+	cands = append(cands, in.cur)
 	for _, g := range in.gs {
-		if g == in.cur || g.runnable() {
+		if g != in.cur && g.runnable() {
 			cands = append(cands, g)
 		}
 	}
@@ -232,9 +235,30 @@ func (in *Interp) schedPoint(what string) {
 		return
 	}
 	k := in.ex.choose(len(cands), "sched:"+what)
-	if cands[k] != in.cur {
+	if k != 0 {
+		in.preempts++
 		in.switchTo(cands[k])
 	}
+}
+
+// pickNext chooses the goroutine to run when the current one blocks or ends.
+func (in *Interp) pickNext(not *G) *G {
+	if !in.schedExp {
+		return in.pick(not)
+	}
+	var cands []*G
+	for _, g := range in.gs {
+		if g != not && g.runnable() {
+			cands = append(cands, g)
+		}
+	}
+	if len(cands) == 0 {
+		return nil
+	}
+	if len(cands) == 1 {
+		return cands[0]
+	}
+	return cands[in.ex.choose(len(cands), "sched:next")]
 }
 
 // killAll terminates all non-main host goroutines at the end of a path.
